@@ -265,6 +265,11 @@ func (x *Run) callFunc(fr *Frame, st *State, fn *ssa.Function, args []Val, bindi
 			if fr.inPure() {
 				mode = ModePure
 			} else {
+				// the callee's stores into a slice it was handed re-bind the callee's
+				// own names (A-SLICE): the caller's names get unknown contents
+				if x.mayWriteSliceParam(fn, map[*ssa.Function]bool{}) {
+					x.havocSliceArgs(fr, st, site, fn.String())
+				}
 				st.events = append(st.events, Event{Name: "call:" + fn.String(), Args: args})
 				idx := len(st.events) - 1
 				outs := x.runFunc(fn, args, bindings, st, fr, mode)
@@ -285,6 +290,7 @@ func (x *Run) callFunc(fr *Frame, st *State, fn *ssa.Function, args []Val, bindi
 		x.opaque["havoc-modset:"+x.fnShort(fn)] = true
 		x.mu.Unlock()
 		x.applyHavoc(st, ms)
+		x.havocSliceArgs(fr, st, site, fn.String())
 		return single(st, x.freshResults(st, fn.Signature.Results()))
 	}
 	// --- deterministic library functions: uninterpreted function of the arguments ---
@@ -911,4 +917,110 @@ func (x *Run) targetBindings(cf *Frame, st *State) []Val {
 	}
 	cf.conBindings = bindings
 	return bindings
+}
+
+// mayWriteSliceParam: does fn (or an frp function it hands the slice to) store
+// through a basic-element slice parameter? Syntactic, conservative: an element
+// store or copy() whose destination is cut from a parameter, or passing such a
+// slice on to a call that is not exempt.
+func (x *Run) mayWriteSliceParam(fn *ssa.Function, seen map[*ssa.Function]bool) bool {
+	if seen[fn] {
+		return false
+	}
+	seen[fn] = true
+	x.mu.Lock()
+	if v, ok := x.sliceWriteCache[fn]; ok {
+		x.mu.Unlock()
+		return v
+	}
+	x.mu.Unlock()
+	res := false
+	hasSliceParam := false
+	for _, p := range fn.Params {
+		if sl, ok := types.Unalias(p.Type()).Underlying().(*types.Slice); ok {
+			if _, basic := types.Unalias(sl.Elem()).Underlying().(*types.Basic); basic {
+				hasSliceParam = true
+			}
+		}
+	}
+	if hasSliceParam {
+		var fromParam func(v ssa.Value, d int) bool
+		fromParam = func(v ssa.Value, d int) bool {
+			if d > 8 {
+				return true
+			}
+			switch v := v.(type) {
+			case *ssa.Parameter:
+				return true
+			case *ssa.Slice:
+				return fromParam(v.X, d+1)
+			case *ssa.Phi:
+				for _, e := range v.Edges {
+					if e != ssa.Value(v) && fromParam(e, d+1) {
+						return true
+					}
+				}
+			}
+			return false
+		}
+	scan:
+		for _, b := range fn.Blocks {
+			for _, ins := range b.Instrs {
+				switch ins := ins.(type) {
+				case *ssa.Store:
+					if ia, ok := ins.Addr.(*ssa.IndexAddr); ok {
+						if _, isSl := types.Unalias(ia.X.Type()).Underlying().(*types.Slice); isSl && fromParam(ia.X, 0) {
+							res = true
+							break scan
+						}
+					}
+				case ssa.CallInstruction:
+					cc := ins.Common()
+					if bi, ok := cc.Value.(*ssa.Builtin); ok {
+						if bi.Name() == "copy" && len(cc.Args) > 0 && fromParam(cc.Args[0], 0) {
+							res = true
+							break scan
+						}
+						continue
+					}
+					passes := false
+					for _, a := range cc.Args {
+						if sl, ok := types.Unalias(a.Type()).Underlying().(*types.Slice); ok {
+							if _, basic := types.Unalias(sl.Elem()).Underlying().(*types.Basic); basic && fromParam(a, 0) {
+								passes = true
+							}
+						}
+					}
+					if !passes {
+						continue
+					}
+					nm := ""
+					if cc.IsInvoke() {
+						nm = cc.Method.Name()
+					} else if sf := cc.StaticCallee(); sf != nil {
+						nm = sf.Name()
+						if x.spec.pureExt(sf) || x.spec.keepsArgs[sf.String()] {
+							continue
+						}
+						if len(sf.Blocks) > 0 && strings.HasPrefix(pkgPathOf(sf), frpPrefix) {
+							if x.mayWriteSliceParam(sf, seen) {
+								res = true
+								break scan
+							}
+							continue
+						}
+					}
+					if strings.HasPrefix(nm, "Write") || strings.HasPrefix(nm, "write") {
+						continue
+					}
+					res = true
+					break scan
+				}
+			}
+		}
+	}
+	x.mu.Lock()
+	x.sliceWriteCache[fn] = res
+	x.mu.Unlock()
+	return res
 }
